@@ -43,8 +43,9 @@ EXTRA_MODULES = {
     "C10": ["Tie.Moments"],
     "C11": ["Tie.Plan", "Tie.Fold", "Kernels.Fold"],
     "C12": ["Tie.FftLengths"],
-    "C13": ["Tie.TemplatePrep"],
+    "C13": ["Tie.TemplatePrep", "Tie.StatsLane"],
     "C14": ["Kernels.Downsample1d", "Kernels.Downsample2d", "Tie.FilterGeom"],
+    "C15": ["Tie.StatsLane"],
     "C16": ["Kernels.MaskChannels", "Tie.StateMachines"],
     "C17": ["Tie.StateMachines"],
     "C18": ["Tie.Plan", "Tie.Pfits"],
